@@ -17,7 +17,7 @@ import ast
 
 from ..dataflow import RD
 from ..inline import Inliner
-from ..loader import AnalysisError, Tree, unparse, walk_function
+from ..loader import AnalysisError, Tree, ancestors, unparse, walk_function
 from ..poly import RF, D, equal, sym
 from ..report import Check
 from ..rules import symbol_sites
@@ -254,14 +254,31 @@ def check_dispatch(ctx: Check, tree: Tree) -> None:
         ctx.verdict(ok, "R-DISPATCH", f"{cls.qual}.assign[tuple]::creates-decay", tree.loc(fn), "assign[(transition, node)] converts to the TwoBodyDecay of exactly that node")
     # __init__ registers every node of every transition with the neutral builder
     init = cls.methods["__init__"]
-    from ..canon import canon
-
+    ird = RD(init.node)
     ok = False
-    for outer_loop in [n for n in walk_function(init.node) if isinstance(n, ast.For)]:
-        t = canon(outer_loop, init.node)
-        if "for _1 in _0.topology.nodes" in t and "TwoBodyDecay.from_transition(_0, _1)" in t and "] = create_non_dynamic" in t and "continue" not in t and "break" not in t:
+    why = []
+    for st in [n for n in walk_function(init.node) if isinstance(n, ast.Assign) and isinstance(n.targets[0], ast.Subscript) and unparse(n.value) == "create_non_dynamic"]:
+        key = st.targets[0].slice
+        kdefs = [d for d in ird.reaching(key)] if isinstance(key, ast.Name) else []
+        calls = [d.value for d in kdefs if isinstance(d.value, ast.Call) and unparse(d.value.func) == "TwoBodyDecay.from_transition" and len(d.value.args) == 2]
+        if len(calls) != 1 or len(kdefs) != 1:
+            why.append("key is not TwoBodyDecay.from_transition(transition, node)")
+            continue
+        t_arg, n_arg = calls[0].args
+        loops = [a for a in ancestors(st) if isinstance(a, ast.For)]
+        node_loop = next((l for l in loops if isinstance(l.target, ast.Name) and isinstance(n_arg, ast.Name) and l.target.id == n_arg.id), None)
+        if node_loop is None or unparse(node_loop.iter) != f"{unparse(t_arg)}.topology.nodes":
+            why.append("the node does not range over all nodes of that transition's topology")
+            continue
+        tdeps = ird.closure(ird.uses(t_arg))
+        from_param = any(d.kind == "param" and d.name == init.params[1] for d in tdeps) if len(init.params) > 1 else False
+        jumps = any(isinstance(n, (ast.Continue, ast.Break)) for l in loops for n in ast.walk(l))
+        guarded = any(isinstance(a, ast.If) for a in ancestors(st) if a is not init.node and not isinstance(a, (ast.For, ast.FunctionDef, ast.ClassDef, ast.Module)))
+        if from_param and not jumps and not guarded:
             ok = True
-    ctx.verdict(ok, "R-DISPATCH", f"{cls.qual}.__init__::all-nodes", tree.loc(init.node), "every node of every transition starts with create_non_dynamic")
+        else:
+            why.append("registration is conditional / leaves loops early / does not derive from the constructor argument")
+    ctx.verdict(ok, "R-DISPATCH", f"{cls.qual}.__init__::all-nodes", tree.loc(init.node), "every node of every (also permuted) transition starts with create_non_dynamic", None if ok else why)
 
 
 def check_same_decay(ctx: Check, tree: Tree) -> None:
@@ -355,11 +372,145 @@ def check_same_decay(ctx: Check, tree: Tree) -> None:
     ctx.verdict(ok, "R-SAMEDECAY", f"{pd.qual}::same-node", tree.loc(pd.node), "the dynamics of (transition, node) multiply the Wigner-D of the same (transition, node)")
 
 
+def check_selector_store(ctx: Check, tree: Tree) -> None:
+    """R-ONESTORE: DynamicsSelector is a mapping over ONE store.  What __getitem__ returns for a
+    decay (used by __formulate_dynamics) is what the last assign() that denotes that decay wrote,
+    and what items()/values() show: every assign overload writes only that store, __getitem__
+    reads only that store with its key, the views expose that store."""
+    cls = tree.cls(f"{HEL}::DynamicsSelector")
+    def self_attrs(fn, ctx_type):
+        out = set()
+        for n in walk_function(fn.node):
+            if isinstance(n, ast.Attribute) and isinstance(n.value, ast.Name) and n.value.id == "self" and isinstance(n.ctx, ast.Load):
+                par = getattr(n, "_parent", None)
+                out.add(n.attr)
+        return out
+
+    written: dict[str, set[str]] = {}
+    for name, m in cls.methods.items():
+        for n in walk_function(m.node):
+            tgt = None
+            if isinstance(n, ast.Assign) and isinstance(n.targets[0], ast.Subscript):
+                tgt = n.targets[0].value
+            elif isinstance(n, ast.Call) and isinstance(n.func, ast.Attribute) and n.func.attr in {"update", "setdefault", "pop", "clear", "__setitem__"}:
+                tgt = n.func.value
+            elif isinstance(n, ast.Delete):
+                for t in n.targets:
+                    if isinstance(t, ast.Subscript):
+                        tgt = t.value
+            if isinstance(tgt, ast.Attribute) and isinstance(tgt.value, ast.Name) and tgt.value.id == "self":
+                written.setdefault(tgt.attr, set()).add(name)
+    stores = sorted(written)
+    getitem = cls.methods.get("__getitem__")
+    if getitem is None or not stores:
+        raise AnalysisError("vanished anchor: DynamicsSelector.__getitem__ / its store")
+    key = getitem.params[1] if len(getitem.params) > 1 else None
+    reads = sorted({n.attr for n in walk_function(getitem.node) if isinstance(n, ast.Attribute) and isinstance(n.value, ast.Name) and n.value.id == "self"})
+    rets = [r for r in walk_function(getitem.node) if isinstance(r, ast.Return) and r.value is not None]
+    main = None
+    for r in rets:
+        v = r.value
+        if isinstance(v, ast.Subscript) and isinstance(v.value, ast.Attribute) and isinstance(v.value.value, ast.Name) and v.value.value.id == "self" and unparse(v.slice) == key:
+            main = v.value.attr
+    problems = []
+    if main is None:
+        problems.append("__getitem__ does not return self.<store>[key]")
+    if len(rets) != 1:
+        problems.append(f"__getitem__ has {len(rets)} return paths (a second source can shadow the store)")
+    if main is not None and [a for a in reads if a != main]:
+        problems.append(f"__getitem__ also consults {[a for a in reads if a != main]}")
+    if main is not None and [st for st in stores if st != main]:
+        problems.append(f"assign() also writes {[st for st in stores if st != main]} ({sorted(set().union(*[written[st] for st in stores if st != main]))})")
+    for view in ("items", "keys", "values", "__iter__", "__len__"):
+        m = cls.methods.get(view)
+        if m is not None and main is not None:
+            attrs = {n.attr for n in walk_function(m.node) if isinstance(n, ast.Attribute) and isinstance(n.value, ast.Name) and n.value.id == "self"}
+            if attrs != {main}:
+                problems.append(f"{view}() exposes {sorted(attrs)}, not the store `{main}`")
+    ctx.verdict(not problems, "R-ONESTORE", f"{cls.qual}::single-store", tree.loc(getitem.node),
+                f"DynamicsSelector: assign overloads, __getitem__ and the mapping views all operate on the one store `{main}`", problems or None)
+
+
+def check_key_identity(ctx: Check, tree: Tree) -> None:
+    """R-KEYIDENTITY: TwoBodyDecay is the key of the selector; two nodes that differ in parent,
+    children or interaction (LS coupling) are different keys: no field is excluded from equality /
+    hash, no hand-written __eq__/__hash__."""
+    cls = tree.cls("ampform.helicity.decay::TwoBodyDecay")
+    problems = []
+    decs = [unparse(d) for _, d in cls.decorators] if cls.decorators else []
+    for _, d in cls.decorators:
+        if isinstance(d, ast.Call):
+            for k in d.keywords:
+                if k.arg in {"eq", "hash", "unsafe_hash", "order"} and isinstance(k.value, ast.Constant) and k.value.value is False and k.arg in {"eq", "hash"}:
+                    problems.append(f"class decorator `{unparse(d)}` switches {k.arg} off")
+    fields = []
+    for st in cls.node.body:
+        if isinstance(st, ast.AnnAssign) and isinstance(st.target, ast.Name):
+            fields.append(st.target.id)
+            if isinstance(st.value, ast.Call):
+                for k in st.value.keywords:
+                    if k.arg in {"eq", "hash", "compare"} and isinstance(k.value, ast.Constant) and k.value.value is False:
+                        problems.append(f"field `{st.target.id}` is excluded from {k.arg} ({unparse(st.value)})")
+    for name in ("__eq__", "__hash__"):
+        if name in cls.methods:
+            problems.append(f"hand-written {name}")
+    if not {"parent", "children", "interaction"} <= set(fields):
+        problems.append(f"fields are {fields}, expected parent, children, interaction")
+    ctx.verdict(not problems, "R-KEYIDENTITY", f"{cls.qual}::equality", tree.loc(cls.node),
+                f"TwoBodyDecay ({', '.join(decs)}) compares and hashes over all of its fields {fields}", problems or None)
+
+
+def check_dynamics_domain(ctx: Check, tree: Tree) -> None:
+    """R-DYNDOMAIN: a selection by resonance name denotes every node whose parent is that resonance
+    in every chain that is formulated.  The builder also formulates the identical-particle
+    permutations of each transition (`_perform_combinatorics`); the decays of those permuted
+    transitions have other state ids, hence are other keys.  Either the selector registers them as
+    well, or the lookup normalises the permuted decay to a registered one - otherwise
+    `if decay not in self.dynamics: return 1` silently drops the lineshape of the permuted terms."""
+    builder = tree.cls(f"{HEL}::HelicityAmplitudeBuilder")
+    comb = "ampform.helicity::_perform_combinatorics"
+    users = [(m, call) for m in builder.methods.values() for call, callee in tree.calls_in(m, nested=True) if callee == comb
+             and m.name != "__init__"]
+    if not users:
+        ctx.info("R-DYNDOMAIN", tree.loc(builder.node), "the builder does not formulate identical-particle permutations itself")
+        return
+    sel = tree.cls(f"{HEL}::DynamicsSelector")
+    init = sel.methods.get("__init__")
+    if init is None:
+        raise AnalysisError("vanished anchor: DynamicsSelector.__init__")
+    rd = RD(init.node)
+    registers = [n for n in walk_function(init.node) if isinstance(n, ast.Assign) and isinstance(n.targets[0], ast.Subscript)]
+    if not registers:
+        raise AnalysisError("DynamicsSelector.__init__: no registration of decays found")
+    covered = False
+    for n in registers:
+        key = n.targets[0].slice
+        texts = [unparse(key)] + [unparse(d.value) for d in rd.closure(rd.uses(key)) if isinstance(d.value, ast.AST)]
+        loops = [a for a in ancestors(n) if isinstance(a, ast.For)]
+        texts += [unparse(l.iter) for l in loops]
+        for l in loops:
+            texts += [unparse(d.value) for d in rd.closure(rd.uses(l.iter)) if isinstance(d.value, ast.AST)]
+        if any("_perform_combinatorics(" in t for t in texts):
+            covered = True
+    # alternatively the lookup site normalises the decay
+    fd = builder.methods.get("__formulate_dynamics")
+    tolerant = fd is not None and any(isinstance(n, ast.Compare) and isinstance(n.ops[0], ast.NotIn) and "dynamics" in unparse(n.comparators[0]) for n in walk_function(fd.node))
+    m0, call0 = users[0]
+    ctx.verdict(covered, "R-DYNDOMAIN", f"{sel.qual}::permuted-decays-not-registered", tree.loc(init.node),
+                f"DynamicsSelector registers the decays of every graph of `_perform_combinatorics(transition)`, the chains that {m0.name} formulates",
+                None if covered else {
+                    "why": f"{m0.qual} formulates `{unparse(call0)}`; TwoBodyDecay.from_transition of a permuted graph is not a key of the selector" + (" and __formulate_dynamics returns 1 for an unknown decay" if tolerant else ""),
+                    "observed": "J/psi -> gamma pi0 pi0 via omega(782), dynamics.assign('omega(782)', create_relativistic_breit_wigner): 8 of the 16 chain terms (those with the pi0 exchanged, angles phi_01) carry no Breit-Wigner - the amplitude is not symmetric under the exchange of the identical particles",
+                })
+
+
 def run(ctx: Check, tree: Tree) -> None:
     ctx.decided += [
         "R-TERM: _generate_kinematic_variable_set wires parent mass / daughter masses / angles of children[0] / L of the node; the three lineshape builders feed M^2, the daughter masses and the pool's L into FormFactor / EnergyDependentWidth",
         "R-DEFAULTS: m -> resonance.mass, Gamma -> resonance.width, d -> 1 in every builder; duplicated symbol constructions agree",
         "R-DISPATCH: assign() registry {TwoBodyDecay, tuple, str, Particle}, each implementation reaches the single store, selection by parent particle name over all decays",
+        "R-DYNDOMAIN: the selector's keys cover the decays of the identical-particle permutations that the builder formulates",
+        "R-ONESTORE: assign overloads, __getitem__ and the views of DynamicsSelector operate on one store; R-KEYIDENTITY: TwoBodyDecay compares/hashes over parent, children and interaction",
         "R-SAMEDECAY: builder lookup, resonance argument, variable set and Wigner-D all refer to the same (transition, node)",
     ]
     ctx.not_decided += ["commutation of re-assignments in any order (last writer wins on a dict - a history property)", "custom builders"]
@@ -369,3 +520,6 @@ def run(ctx: Check, tree: Tree) -> None:
     ctx.section(check_symbol_duplicates, ctx, tree)
     ctx.section(check_dispatch, ctx, tree)
     ctx.section(check_same_decay, ctx, tree)
+    ctx.section(check_selector_store, ctx, tree)
+    ctx.section(check_key_identity, ctx, tree)
+    ctx.section(check_dynamics_domain, ctx, tree)
